@@ -30,6 +30,9 @@ pub enum K {
     Radix(Option<u128>, String, u32),
     Chars(String),
     Str(Vec<u8>),
+    /// a string literal that contains its enclosing quote written twice; payload = the text it
+    /// denotes under IEEE 488.2 (one quote)
+    StrDoubled(Vec<u8>),
     Blk(Vec<u8>),
 }
 
@@ -197,6 +200,13 @@ pub fn model(ty: Ty, c: &LitCase) -> Out {
             Ty::Str => Out::Deliver(Arg::Str(b.clone())),
             Ty::Bool => Out::Reject(vec![-104, -224]),
             _ => Out::Reject(vec![-104]),
+        },
+        // the statement does not say that doubled quotes are supported: the text they denote may
+        // be delivered, or the literal refused with one error of any number (code 0 = any) -
+        // but never the raw text with both quotes
+        K::StrDoubled(b) => match ty {
+            Ty::Str => Out::Either(vec![Arg::Str(b.clone())], vec![0]),
+            _ => Out::Reject(vec![0]),
         },
         K::Blk(b) => match ty {
             Ty::Blk => Out::Deliver(Arg::Blk(b.clone())),
@@ -390,7 +400,7 @@ fn kind_name(k: &K) -> &'static str {
         K::Radix(_, _, 8) => "octal",
         K::Radix(..) => "binary",
         K::Chars(_) => "character",
-        K::Str(_) => "string",
+        K::Str(_) | K::StrDoubled(_) => "string",
         K::Blk(_) => "block",
     }
 }
@@ -403,7 +413,7 @@ fn kind_idx(k: &K) -> u8 {
         K::Radix(_, _, 8) => 3,
         K::Radix(..) => 4,
         K::Chars(_) => 5,
-        K::Str(_) => 6,
+        K::Str(_) | K::StrDoubled(_) => 6,
         K::Blk(_) => 7,
     }
 }
@@ -484,7 +494,7 @@ fn judge_e2e(acc: &mut Acc, iface: &IfaceDesc, h: u16, tys: &[Ty], lits: &[LitCa
             }
         }
         else if rejected && may_reject {
-            if !codes.contains(&errs[0]) {
+            if !codes.contains(&errs[0]) && !codes.contains(&0) {
                 verdict = Err((format!("wrong-error-number/{}", errs[0]), format!("reported {} but the unfit literal calls for one of {:?}", errs[0], codes)));
             }
             if must_reject {
@@ -570,12 +580,24 @@ fn pool(rng: &mut Rng, floats: usize) -> Vec<LitCase> {
     for (p, q) in [("", b'"'), ("abc", b'\''), ("a;b,c:d#e", b'"'), ("it's", b'"'), ("say \"hi\"", b'\''), ("\u{e9}\u{3a9}\u{1F600}", b'"'), (" lead and trail ", b'\''), ("1", b'"'), ("ON", b'\'')] {
         v.push(strlit(p, q));
     }
+    for (text, denotes) in [
+        ("\x27it\x27\x27s\x27", "it\x27s"),
+        ("\x22say \x22\x22hi\x22\x22\x22", "say \x22hi\x22"),
+        ("\x27\x27\x27\x27", "\x27"),
+        ("\x22\x22\x22\x22", "\x22"),
+        ("\x27a\x27\x27\x27\x27b\x27", "a\x27\x27b"),
+    ] {
+        v.push(LitCase { text: text.as_bytes().to_vec(), k: K::StrDoubled(denotes.as_bytes().to_vec()) });
+    }
+    v.push(strlit(&"long string ".repeat(30), b'"'));
     for w in 1..=9usize {
         let payload: Vec<u8> = (0..(w * 3)).map(|i| (i * 37 + w) as u8).collect();
         v.push(blklit(&payload, w));
     }
     v.push(blklit(b"", 1));
     v.push(blklit(&(0u8..=255).collect::<Vec<u8>>(), 3));
+    v.push(blklit(&(0..700).map(|i| (i % 251) as u8).collect::<Vec<u8>>(), 4));
+    v.push(blklit(&vec![b'z'; 259], 9));
     v
 }
 
@@ -671,7 +693,7 @@ fn judge_direct(acc: &mut Acc, ty: Ty, c: &LitCase, got: Result<Arg, i16>) {
     let ok = match (&want, &got) {
         (Out::Deliver(a), Ok(g)) => a == g,
         (Out::Either(vs, _), Ok(g)) => vs.contains(g),
-        (Out::Reject(cs), Err(n)) | (Out::Either(_, cs), Err(n)) => cs.contains(n),
+        (Out::Reject(cs), Err(n)) | (Out::Either(_, cs), Err(n)) => cs.contains(n) || cs.contains(&0),
         _ => false,
     };
     if !ok {
@@ -716,6 +738,7 @@ fn direct_shard(ctx: &Ctx, shard: usize, shards: usize) -> Acc {
             }
             K::Chars(s) => Value::Characters(s),
             K::Str(b) => Value::String(std::str::from_utf8(b).unwrap_or("")),
+            K::StrDoubled(_) => continue, // only meaningful through the parser
             K::Blk(b) => Value::Arbitrary(b),
         };
         direct_int!(&mut acc, u8, Ty::U8, val, c);
